@@ -30,6 +30,7 @@ type c05Case struct {
 	Tag   string `json:"tag,omitempty"` // signature label for the arithmetic and stream matrices
 	Setup string `json:"setup,omitempty"`
 	Files bool `json:"files,omitempty"` // run against the in-memory file system of family (g)
+	Deep  bool `json:"deep,omitempty"`  // family (h): one goal after Setup, first answer, 5 minute resource guard
 	// SetupQuery: a query run first on the same interpreter (stream histories)
 	SetupQuery string `json:"setup_query,omitempty"`
 }
@@ -192,6 +193,7 @@ func c05Work(w *h.W) {
 		w.Outcome(c.Kind + ":bad")
 		w.Violation(c05Sig(c, kind), c, "the call returns answers, failure or an ISO error term; the process survives", kind+": "+detail, size)
 	}
+	c05Deep(w, emit) // first: its cases are few and long
 	// (a) texts: all token strings up to a length bound, with and without a final full stop
 	maxLen := w.Pick(3, 4)
 	for l := 0; l <= maxLen; l++ {
@@ -642,6 +644,98 @@ func c05RunFiles(c *c05Case, fsys fstest.MapFS) (kind, detail string) {
 	return "", ""
 }
 
+// (h) deep recursion: a goal is small, the recursion it starts is not. Whatever the machine keeps on the Go stack per
+// level of a recursion (continuations that call each other on exit, nested solvers) is bounded by that stack, and
+// its overflow is fatal for the host. The memory bound of the property is taken as 2 GB of process memory with Go's
+// default 1 GB stack limit; the workers run with a quarter of that stack (256 MB), so the depth is a quarter of the
+// 1.2 million levels that fit into the bound: 300000. (Recursive traversals of a term nested millions deep overflow
+// the stack, too, but only beyond the bound: building such a term takes more than 2 GB.)
+const c05DeepProgram = `
+count(0) :- !.
+count(N) :- N1 is N - 1, count(N1).
+count2(0).
+count2(N) :- N > 0, N1 is N - 1, count2(N1).
+nt(0, 0).
+nt(N, S) :- N > 0, N1 is N - 1, nt(N1, S1), S is S1 + 1.
+mk(0, []) :- !.
+mk(N, [N|T]) :- N1 is N - 1, mk(N1, T).
+len([], 0).
+len([_|T], N) :- len(T, M), N is M + 1.
+cc(0) :- !.
+cc(N) :- N1 is N - 1, call(cc(N1)).
+kc(0) :- !.
+kc(N) :- N1 is N - 1, catch(kc(N1), _, true).
+ite(0) :- !.
+ite(N) :- ( N > 0 -> N1 is N - 1 ; N1 = 0 ), ite(N1).
+dj(0).
+dj(N) :- N > 0, N1 is N - 1, ( dj(N1) ; fail ).
+ev(0) :- !.
+ev(N) :- N1 is N - 1, od(N1).
+od(0) :- !.
+od(N) :- N1 is N - 1, ev(N1).
+th(0) :- throw(bottom).
+th(N) :- N > 0, N1 is N - 1, th(N1), true.
+app([], L, L).
+app([H|T], L, [H|R]) :- app(T, L, R).
+`
+
+var c05DeepGoals = []string{
+	"count(%d).", "count2(%d).", "nt(%d, S).", "mk(%d, L), len(L, N).", "cc(%d).", "kc(%d).", "ite(%d).", "dj(%d).", "ev(%d).",
+	"catch(th(%d), bottom, true).", "mk(%d, L), app(L, [z], R), atom(z).", "mk(%d, L), findall(L, true, [M]), L == M.",
+}
+
+func c05Deep(w *h.W, emit func(c *c05Case, kind, detail string, size int)) {
+	for _, n := range []int{100000, 300000} {
+		for _, g := range c05DeepGoals {
+			if !w.Mine() {
+				continue
+			}
+			c := &c05Case{Kind: "goal", Goal: fmt.Sprintf(g, n), Setup: c05DeepProgram, Deep: true, Tag: "deep recursion"}
+			w.WAL(c)
+			w.GuardFor(c, 6*time.Minute)
+			kind, detail := c05RunDeep(c)
+			w.Unguard()
+			w.Nontrivial("deep:" + c.Goal)
+			if kind == "horizon" {
+				w.Outcome("deep:still running at the resource guard")
+				kind = ""
+			}
+			emit(c, kind, detail, len(c.Goal))
+		}
+	}
+}
+
+func c05RunDeep(c *c05Case) (kind, detail string) {
+	defer func() {
+		if r := recover(); r != nil {
+			kind, detail = "an unrecovered Go panic escaped Query/Next", fmt.Sprint(r)
+		}
+	}()
+	p := c05NewInterp(false)
+	if err := p.Exec(c.Setup); err != nil {
+		return "the program does not load", err.Error()
+	}
+	ctx, cancel := context.WithTimeout(context.Background(), 5*time.Minute)
+	defer cancel()
+	sols, err := p.QueryContext(ctx, c.Goal)
+	if err != nil {
+		return "the generated goal does not parse", err.Error()
+	}
+	got := sols.Next()
+	err = sols.Err()
+	sols.Close()
+	if errors.Is(err, context.DeadlineExceeded) {
+		return "horizon", ""
+	}
+	if k := c05Judge(err, true); k != "" {
+		return k, err.Error()
+	}
+	if err == nil && !got {
+		return "the goal fails (it has an answer)", ""
+	}
+	return "", ""
+}
+
 // c05RunGoalAll is c05RunGoal but takes up to 20 answers, so that every open alternative is resumed.
 func c05RunGoalAll(p *prolog.Interpreter, c *c05Case) (kind string, detail string) {
 	defer func() {
@@ -698,7 +792,11 @@ func c05Replay(b []byte) (string, string, bool) {
 		return "", err.Error(), false
 	}
 	var kind, detail string
-	if c.Files {
+	if c.Deep {
+		if kind, detail = c05RunDeep(&c); kind == "horizon" {
+			kind = ""
+		}
+	} else if c.Files {
 		kind, detail = c05RunFiles(&c, c05FileSystem())
 	} else if c.Kind == "text" {
 		kind, detail = c05RunText(&c)
@@ -724,7 +822,7 @@ func c05Replay(b []byte) (string, string, bool) {
 func init() {
 	h.Register(&h.Check{
 		ID: "C05",
-		Rule: "(a) ALL strings of <= L symbols over a 29-symbol token alphabet taken from the lexer's switch (atoms, variables, digits, '.', ',', '|', every bracket, '-', '+', '\\\\', quote characters, 0', 0x, :-, layout, %, /*, a non-ASCII letter, a float prefix) each as is, with '.', and with ' .\\n', handed to Exec and to Query; all byte strings of length 1 and (quick: every 7th; thorough: all) of length 2; (b) EVERY registered procedure (read from the interpreter through a verif-tagged accessor, so the matrix follows the code) except halt/0,1 x all tuples of 14 (thorough: 22) argument shapes for arity <= 3 and of 8 (arity 4, 5) / 6 shapes above (unbound, atoms incl. empty, [], integers incl. extremes, float, compound, proper/partial/improper list, string, a stream, callable and non-callable terms), first answer plus one retry then Close, on an interpreter with real streams and (quick: every 5th tuple) on the documented prolog.New(nil, nil); (c) EVERY evaluable functor of eval's dispatch tables (read through a verif-tagged accessor) x a 25-value operand grid (unbound, atom, integers incl. 63/64/-64/extremes, floats incl. -0.0, largest and smallest, compound, string, lists, nested error) for both operands, unary ones also over every unary functor nested inside (thorough: every binary too), each under is/2, three comparisons and catch/3; (d) every procedure of arity 1..4 x 7 kinds of stream argument (closed input/output, open text/binary input/output, at end, closed alias) in every argument position x all tuples of 10 other shapes (quick, arity 4: 5); (e) database histories: all conjunctions of <= 3 (thorough: 4) goals from a 20-goal menu that calls, retracts, asserts, abolishes and enumerates a dynamic predicate with three clauses while calls of it are open, with and without a final fail, up to 20 answers; (f) stream-state histories: all sequences of <= 3 (4) of 14 operations that open, close, alias and make current input/output streams (the standard streams included), each followed by each of 17 probes that use a stream; (g) 20 file names x 8 forms of include/ensure_loaded/consult (directive, initialization goal, between clauses, goal, retried goal, list notation) over an in-memory file system with self-including, mutually including and mutually loading files, a chain of 300 inclusions, a missing file, a file with a syntax error. Distinct = text or goal.",
+		Rule: "(a) ALL strings of <= L symbols over a 29-symbol token alphabet taken from the lexer's switch (atoms, variables, digits, '.', ',', '|', every bracket, '-', '+', '\\\\', quote characters, 0', 0x, :-, layout, %, /*, a non-ASCII letter, a float prefix) each as is, with '.', and with ' .\\n', handed to Exec and to Query; all byte strings of length 1 and (quick: every 7th; thorough: all) of length 2; (b) EVERY registered procedure (read from the interpreter through a verif-tagged accessor, so the matrix follows the code) except halt/0,1 x all tuples of 14 (thorough: 22) argument shapes for arity <= 3 and of 8 (arity 4, 5) / 6 shapes above (unbound, atoms incl. empty, [], integers incl. extremes, float, compound, proper/partial/improper list, string, a stream, callable and non-callable terms), first answer plus one retry then Close, on an interpreter with real streams and (quick: every 5th tuple) on the documented prolog.New(nil, nil); (c) EVERY evaluable functor of eval's dispatch tables (read through a verif-tagged accessor) x a 25-value operand grid (unbound, atom, integers incl. 63/64/-64/extremes, floats incl. -0.0, largest and smallest, compound, string, lists, nested error) for both operands, unary ones also over every unary functor nested inside (thorough: every binary too), each under is/2, three comparisons and catch/3; (d) every procedure of arity 1..4 x 7 kinds of stream argument (closed input/output, open text/binary input/output, at end, closed alias) in every argument position x all tuples of 10 other shapes (quick, arity 4: 5); (e) database histories: all conjunctions of <= 3 (thorough: 4) goals from a 20-goal menu that calls, retracts, asserts, abolishes and enumerates a dynamic predicate with three clauses while calls of it are open, with and without a final fail, up to 20 answers; (f) stream-state histories: all sequences of <= 3 (4) of 14 operations that open, close, alias and make current input/output streams (the standard streams included), each followed by each of 17 probes that use a stream; (g) 20 file names x 8 forms of include/ensure_loaded/consult (directive, initialization goal, between clauses, goal, retried goal, list notation) over an in-memory file system with self-including, mutually including and mutually loading files, a chain of 300 inclusions, a missing file, a file with a syntax error; (h) deep recursion: 12 recursion shapes (tail and non-tail counting, list construction and traversal, through call/1, catch/3, if-then-else, disjunction, mutual recursion, an error thrown at the bottom, append/3, findall/3 and ==/2 of a long list) at depths 100000 and 300000 under a 256 MB stack limit (the scaled equivalent of 1.2 million levels under Go's default limit, which is what fits into a 2 GB memory bound), first answer. Distinct = text or goal.",
 		Explanation: "state = a fresh (or regularly renewed) real interpreter in an isolated worker process; transition = one Exec/Query call; oracle: the worker process survives (a fatal runtime error is attributed to the exact input through a write-ahead record, re-running the batch in fine mode), the call returns (per-case watchdog), an error raised by a predicate is error(Formal, _) with an ISO formal error term, and no returned error is the residue of a recovered Go panic",
 		Assumptions: []string{"workers run in an empty scratch directory with GOMAXPROCS=1 and a 256 MB goroutine stack limit so that unbounded recursion dies quickly", "a Go error returned for a text that does not parse is the API's way to report a syntax error and is accepted"},
 		Work:          c05Work,
